@@ -681,8 +681,9 @@ func (f *Fleet) Drain(d time.Duration) {
 	}
 	end := f.Sim.Now() + d
 	actor := Actor{Kind: "none"}
+	drainRestarts := map[*Node]int{}
 	for f.Sim.Now() < end {
-		parked := f.Sim.Quiesce()
+		f.Sim.Quiesce()
 		f.observe(actor)
 		if f.Failed() && f.StopOnViol {
 			return
@@ -692,14 +693,24 @@ func (f *Fleet) Drain(d time.Duration) {
 		// retry budget just before the faults stopped) is restarted, as a
 		// service manager would.
 		f.reapCancelled()
+		parked := f.Sim.Quiesce()
 		if st := f.stopped(); len(st) > 0 {
+			restarted := false
 			for _, n := range st {
+				if drainRestarts[n] >= 3 {
+					continue // keeps failing (e.g. a malformed stored value): leave it down
+				}
+				drainRestarts[n]++
 				if err := n.Start(); err != nil {
 					panic(err)
 				}
 				f.Stats.Restarts++
+				restarted = true
 			}
-			continue
+			if restarted {
+				f.Sim.Sleep(100 * time.Millisecond)
+				continue
+			}
 		}
 		if len(parked) == 0 {
 			f.Sim.Idle(end - f.Sim.Now())
